@@ -1445,7 +1445,16 @@ func (s *Session) checkQuota(userName string) (ok bool, err error) {
 	}
 	for _, quota := range policy.Quotas() {
 		now := time.Now()
-		then := now.Add(-time.Duration(quota.Days()) * 24 * time.Hour)
+		// Keep the lookback period inside what time.Duration can represent,
+		// otherwise "then" would be later than "now".
+		days := int64(quota.Days())
+		if days < 0 {
+			days = 0
+		}
+		if maxDays := int64(math.MaxInt64 / (24 * time.Hour)); days > maxDays {
+			days = maxDays
+		}
+		then := now.Add(-time.Duration(days) * 24 * time.Hour)
 		totalBytes := uploadBytes.(*metrics.Counter).DeltaBetween(then, now)
 		totalBytes += downloadBytes.(*metrics.Counter).DeltaBetween(then, now)
 		if totalBytes/1048576 > int64(quota.Megabytes()) {
